@@ -339,7 +339,7 @@ def raw_lumps(W: dict) -> Dict[int, bytes]:
     """Uncompressed bytes of every non-empty lump except GAME_LUMP."""
     L = LAYOUTS[W['layout']]
     lumps: Dict[int, bytes] = dict(W['opaque'])
-    lumps[L_ENTITIES] = enc_entities(W)
+    lumps[L_ENTITIES] = b'' if W.get('no_ent_lump') else enc_entities(W)
     lumps[L_PLANES] = b''.join(struct.pack('<4fi', *p['normal'], p['dist'], p['type']) for p in W['planes'])
     lumps[L_VERTEXES] = b''.join(struct.pack('<3f', *v) for v in W['vertexes'])
     lumps[L_EDGES] = b''.join(struct.pack(L['edge'], a, b) for a, b in W['edges'])
@@ -467,7 +467,8 @@ def build_file(W: dict) -> bytes:
             continue
         data = lumps.get(idx, b'')
         if not data:
-            entries[idx] = (len(blob) if phys['empty_offsets'] else 0, 0, 0)
+            # (an empty ENTITIES lump keeps a real offset: a zero first header field is how a version-21 file says "L4D2 order")
+            entries[idx] = (len(blob) if phys['empty_offsets'] or idx == L_ENTITIES else 0, 0, 0)
             continue
         if idx != L_PAKFILE:
             pad()
